@@ -234,6 +234,10 @@ package playlist
 //@   ensures [C15] result == nil ==> p.Duration != 0 && p.URI != ""
 //@   ensures [C14] p.ByteRangeStart == nil || p.ByteRangeStart == old(p.ByteRangeStart) || fresh(p.ByteRangeStart)
 //@   ensures [C14] p.ByteRangeLength == nil || p.ByteRangeLength == old(p.ByteRangeLength) || fresh(p.ByteRangeLength)
+// C14: every textual attribute is read into the field it is written from (ghost enumeration of the attribute map)
+//@   loop 1 invariant 0 <= iterpos() && iterpos() <= iterlen()
+//@   loop 1 invariant forall(j, (0 <= j && j < iterpos()) ==> ((iterkey(j) == "URI" ==> p.URI == attrs[iterkey(j)]) && (iterkey(j) == "INDEPENDENT" ==> p.Independent == (attrs[iterkey(j)] == "YES"))
+//@        && (iterkey(j) == "GAP" ==> p.Gap)))
 //@ end
 
 //@ func MediaMap.unmarshal
@@ -242,6 +246,9 @@ package playlist
 //@   loop 1 invariant t.ByteRangeStart == nil || t.ByteRangeStart == old(t.ByteRangeStart) || fresh(t.ByteRangeStart)
 //@   ensures [C15] result == nil ==> t.URI != ""
 //@   ensures [C14] t.ByteRangeStart == nil || t.ByteRangeStart == old(t.ByteRangeStart) || fresh(t.ByteRangeStart)
+// C14: every textual attribute is read into the field it is written from (ghost enumeration of the attribute map)
+//@   loop 1 invariant 0 <= iterpos() && iterpos() <= iterlen()
+//@   loop 1 invariant forall(j, (0 <= j && j < iterpos()) ==> (iterkey(j) == "URI" ==> t.URI == attrs[iterkey(j)]))
 //@ end
 
 //@ func MediaPartInf.unmarshal
@@ -251,9 +258,12 @@ package playlist
 //@ end
 
 //@ func MediaPreloadHint.unmarshal
-//@   props C15
+//@   props C14 C15
 //@   modifies *t
 //@   ensures result == nil ==> t.URI != ""
+// C14: every textual attribute is read into the field it is written from (ghost enumeration of the attribute map)
+//@   loop 1 invariant 0 <= iterpos() && iterpos() <= iterlen()
+//@   loop 1 invariant forall(j, (0 <= j && j < iterpos()) ==> (iterkey(j) == "URI" ==> t.URI == attrs[iterkey(j)]))
 //@ end
 
 //@ func MediaSkip.unmarshal
@@ -262,16 +272,26 @@ package playlist
 //@ end
 
 //@ func MediaServerControl.unmarshal
-//@   props C15
+//@   props C14 C15
 //@   modifies *t
+// C14: every attribute is read into its own field (ghost enumeration of the attribute map)
+//@   loop 1 invariant 0 <= iterpos() && iterpos() <= iterlen()
+//@   loop 1 invariant forall(j, (0 <= j && j < iterpos()) ==> ((iterkey(j) == "CAN-BLOCK-RELOAD" ==> t.CanBlockReload == (attrs[iterkey(j)] == "YES"))
+//@        && (iterkey(j) == "PART-HOLD-BACK" ==> t.PartHoldBack != nil) && (iterkey(j) == "CAN-SKIP-UNTIL" ==> t.CanSkipUntil != nil)))
+//@   loop 1 invariant (t.PartHoldBack != nil ==> (t.PartHoldBack == old(t.PartHoldBack) || exists(j, 0 <= j && j < iterpos() && iterkey(j) == "PART-HOLD-BACK")))
+//@        && (t.CanSkipUntil != nil ==> (t.CanSkipUntil == old(t.CanSkipUntil) || exists(j, 0 <= j && j < iterpos() && iterkey(j) == "CAN-SKIP-UNTIL")))
 //@ end
 
 //@ func MediaKey.unmarshal
-//@   props C15
+//@   props C14 C15
 //@   requires t.Method == ""
 //@   modifies *t
 //@   loop 1 invariant t.Method == "NONE" || t.Method == "AES-128" || t.Method == "SAMPLE-AES" || t.Method == ""
 //@   ensures result == nil ==> t.Method == "NONE" || t.Method == "AES-128" || t.Method == "SAMPLE-AES" || t.Method == ""
+// C14: every textual attribute is read into the field it is written from (ghost enumeration of the attribute map)
+//@   loop 1 invariant 0 <= iterpos() && iterpos() <= iterlen()
+//@   loop 1 invariant forall(j, (0 <= j && j < iterpos()) ==> ((iterkey(j) == "URI" ==> t.URI == attrs[iterkey(j)]) && (iterkey(j) == "IV" ==> t.IV == attrs[iterkey(j)])
+//@        && (iterkey(j) == "KEYFORMAT" ==> t.KeyFormat == attrs[iterkey(j)]) && (iterkey(j) == "KEYFORMATVERSIONS" ==> t.KeyFormatVersions == attrs[iterkey(j)])))
 //@ end
 
 //@ func MultivariantStart.unmarshal
